@@ -49,7 +49,7 @@ func (wl *WhopLoc) Continue(s *Scope, args List, depth int) Object {
 			continue
 		}
 		ws := s.NewScope()
-		ws.Let("~whopper-location~", &WhopLoc{Method: wl.Method, Current: wl.Current + 1})
+		ws.Let("~whopper-location~", &WhopLoc{Method: wl.Method, Current: wl.Current})
 		if lam, ok := wrap.(*Lambda); ok {
 			lam.Closure = ws
 		}
